@@ -37,11 +37,13 @@ def check(ctx: Ctx) -> str:
     ctx.check("parent_template = environment.get_template(" in s, "extends:load", "compiler:CodeGenerator.visit_Extends", "parent lookup", "the parent must be loaded with environment.get_template(<expr>, <this template's name>)", ve.loc())
     sup = repo.func("runtime:Context.super")
     s = ast.unparse(sup.node)
-    ctx.check("index = blocks.index(current) + 1" in s and "blocks[index]" in s and "BlockReference(name, self, blocks, index)" in s, "Context.super:index", "runtime:Context.super", "next less-derived block", "super() must select the block after the current one in the stack", sup.loc())
+    idx = [a for a in ast.walk(sup.node) if isinstance(a, ast.Assign) and ast.unparse(a.value) == "blocks.index(current) + 1" and isinstance(a.targets[0], ast.Name)]
+    iv = idx[0].targets[0].id if len(idx) == 1 else "index"  # type: ignore[attr-defined]
+    ctx.check(len(idx) == 1 and f"blocks[{iv}]" in s and f"BlockReference(name, self, blocks, {iv})" in s, "Context.super:index", "runtime:Context.super", "next less-derived block", "super() must select the block after the current one in the stack", sup.loc())
     hs = [h for h in ast.walk(sup.node) if isinstance(h, ast.ExceptHandler)]
     ctx.check(len(hs) == 1 and ast.unparse(hs[0].type) == "LookupError" and "self.environment.undefined(" in ast.unparse(hs[0]), "Context.super:missing", "runtime:Context.super", "no parent block", "a missing parent block must yield an undefined value", sup.loc())
     bs = repo.func("runtime:BlockReference.super")
-    s = ast.unparse(bs.node)
+    s = bs.ntext  # normal form: a local naming `self._depth + 1` is inlined
     ctx.check("self._depth + 1 >= len(self._stack)" in s and "BlockReference(self.name, self._context, self._stack, self._depth + 1)" in s, "BlockReference.super", "runtime:BlockReference.super", "super.super chain", "BlockReference.super must move one step down the same stack and become undefined past its end", bs.loc())
     for meth in ("__call__", "_async_call"):
         fi = repo.func(f"runtime:BlockReference.{meth}")
